@@ -19,16 +19,18 @@ def leading_groupless(shape):
     return "0" not in shape.lstrip("0")
 
 
-def mk(bg, og, bk, ok, tiers):
+def mk(bg, og, bk, ok, tiers, extra=0):
     name = "merge.b%s.o%s%s%s" % (bg or "-", og or "-", ".bnew" if bk else "", ".onew" if ok else "")
+    if extra:
+        name += ".bhdr%d" % extra
     if not (leading_groupless(bg) and leading_groupless(og)):
         name += ".glmid"
     glmid = name.endswith(".glmid")
     return Job(name, ["C03"] if glmid else ["C03", "C04", "C10"], "harness/merge.c",
                sources=["lib/libeconf.c", "lib/mergefiles.c", "lib/helpers.c"],
-               harness_defines=['-DBG="%s"' % bg, '-DOG="%s"' % og, "-DB_KIND=%d" % bk, "-DO_KIND=%d" % ok],
+               harness_defines=['-DBG="%s"' % bg, '-DOG="%s"' % og, "-DB_KIND=%d" % bk, "-DO_KIND=%d" % ok, "-DB_EXTRA_GROUP=%d" % extra],
                unwind=10, tier="T2", timeout=900, mem_gb=6, tiers=tiers, nobody_ok=[".*"], replay="merge",
-               bounds="base sections %r, override sections %r (0 group-less, 1 A, 2 B), keys in {x,y} symbolic, "
+               bounds="base sections %r, override sections %r (0 group-less, 1 AB, 2 A), keys in {x,xy} symbolic, "
                       "no (section,key) twice in one list; %s base, %s override"
                       % (bg, og, "econf_newKeyFile-style" if bk else "parser-style", "econf_newKeyFile-style" if ok else "parser-style"),
                model="M-real (CBMC strcmp/strdup models on literal-length strings)",
@@ -57,6 +59,13 @@ def register(J):
         j = mk(bg, og, bk, ok, Q)
         if j.name not in {x.name for x in J}:
             J.append(j)
+    # re-opened base sections and a base whose section list has a header without keys: part of the quick set
+    for bg, og in (("121", "11"), ("121", "1"), ("212", "2"), ("011", "01")):
+        for j in J:
+            if j.name == "merge.b%s.o%s" % (bg, og):
+                j.tiers = Q
+    for bg, og, extra in (("1", "2", 2), ("1", "22", 2), ("01", "2", 2), ("2", "1", 1), ("", "1", 1)):
+        J.append(mk(bg, og, 0, 0, Q, extra=extra))
     # a few 3+3 pairs with re-opened sections on both sides
     for bg, og in (("121", "121"), ("011", "012"), ("121", "212"), ("012", "021"), ("101", "110")):
         if (bg, og) not in seen:
